@@ -70,7 +70,8 @@ func (c *c05Case) files() (Files, map[string]any) {
 		body += `<template include="d.vuego" :x="a"></template><i class="lx">{{ x }}</i>`
 	}
 	body += `</div>`
-	f := Files{c05Comp: fm + `<template` + tattr + `>` + body + `</template>`}
+	// what follows the component's <template> root is part of the component too
+	f := Files{c05Comp: fm + `<template` + tattr + `>` + body + `</template><i class="tail">{{ a }}</i>`}
 	f["d.vuego"] = `<div class="inner"><i class="dx">{{ x }}</i><i class="da">{{ a }}</i></div>`
 
 	props := func(aForm string) string {
@@ -303,6 +304,7 @@ func (c *c05Case) Run(ctx *core.Ctx) {
 		return
 	}
 	chk("prop-value", "pa", inc, rep(c05Str(wa)))
+	chk("prop-value", "tail", inc, rep(c05Str(wa)))
 	wt := "<nil>"
 	if wa != nil {
 		wt = fmt.Sprintf("%T", wa)
